@@ -46,6 +46,23 @@ CLAIMED = {
              "any interleaving of other connections' events. Tied to the real listener through hook H1: histories with port reuse, "
              "keep-alive, a later record for a live connection's port, and concurrent accepts.",
         design="§7 C07", technique=E2E_TECH),
+    "C08": dict(
+        text="Lean theorems over a transition system of single effects of the latch path (host issues, create temp, partial writes, rename, "
+             "read back, send attest, host latches, publish) with process death possible after every effect: an invariant proved for every "
+             "reachable state gives latched_implies_recoverable, attest_only_after_verified_store, final_name_never_partial and "
+             "restart_uses_local_key (no new key requested). Tied to the real key keeper: every N-th file-system/socket syscall after the "
+             "first status poll is turned into SIGKILL (strace inject) until the process survives; after each kill the key directory and "
+             "the mock host's acquire/attest log are checked and a fresh process on the same directory must converge. Durability across "
+             "power loss is not claimed (no fsync).",
+        design="§7 C08", technique="Lean 4 proof (invariant over a crash transition system) + syscall-level crash injection on the real code"),
+    "C09": dict(
+        text="Lean theorems about the model of one poll iteration for every prior agent state, key directory and host answer: failed/invalid "
+             "status is a no-op; a completed iteration leaves rule ids, channel state and (under the stated host contract) rules exactly as "
+             "the document says, emits the redirect policy iff the state string changed with redirect = (mode != disabled) per endpoint, "
+             "holds no key when disabled and otherwise the named local key or the freshly acquired+stored+verified+attested key; the "
+             "invariant 'disabled => no key' holds over all histories including abandoned iterations. Tied to the real key-keeper loop in "
+             "lock-step with a gated mock host: getters, H2 policy trace and host call log compared after every iteration.",
+        design="§7 C09", technique="Lean 4 proof over a model of the poll iteration + lock-step differential correspondence"),
     "C11": dict(
         text="Lean theorems: enforce denial = 403 + one record, audit denial = relayed exactly as an allowed request + one record, disabled "
              "mode never consults the document, summary counts = number of denials per key, order-independent. Tied to the real listener: "
